@@ -46,6 +46,16 @@ def build(cfg, wipe=False):
         per_file_flags=NI_FLAGS if cfg == "aesni" else None)
 
 
+SEL_WRAPS = ["malloc", "crypto_aes_key_expand_aesni", "crypto_aes_encrypt_block_aesni", "crypto_aesctr_aesni_stream"]
+
+
+def build_sel():
+    """AES-NI configuration, ASan, allocations inside library calls refusable, AES-NI entry points observable."""
+    return vlib.build_c("drv_aes_aesni_sel", "drv_aes.c", SRCS_NI, cflags=QUIET + ["-DDRV_SELFAIL"],
+                        ldflags=["-lcrypto"], wraps=SEL_WRAPS, asan=True,
+                        cpuconfig=os.path.join(CPUCFG, "aesni.h"), per_file_flags=NI_FLAGS)
+
+
 def active_path(ctx, sub, exe, cfg):
     """Which implementation did the library select?  A build that silently fell back is not covered."""
     rc, lines, err = vlib.run_lines(exe, "path\n", timeout=60, env={"ASAN_OPTIONS": "detect_leaks=0"})
@@ -461,6 +471,157 @@ def check_aes_wipe(ctx):
                samples=[cases[0][:120]] if cases else [])
 
 
-SUBCHECKS = {"C02": [check_aes_block, check_aes_ctr],
-             "C03": [check_aes_block, check_aes_ctr],
+# ---------------------------------------------------------------------------- selection under a failed self-test
+
+REFUSE = (0, 1, 2, 3)          # which allocation made inside the library is refused (0 = none)
+CUTS = [5, 0, 11, 16, 1, 47, 160, 7, 300, 15, 17, 33]
+
+
+def gen_select(ctx):
+    """cases for the allocation-refusal build: (case line, first-use trigger)"""
+    r = ctx.rng
+    cases = []
+    for klen in (16, 32):
+        k = rbytes(r, klen)
+        blocks = [bytes(16), bytes(range(16)), rbytes(r, 16)]
+        cases.append("block %s %s" % (hx(k), " ".join(hx(b) for b in blocks)))
+        ctx.count("aes.select.block-key%d" % klen)
+        # one-shot buffers on both sides of the 16-byte routing threshold and a long one
+        cases.append("ctr K%s %s" % (hx(k), " ".join("B%s:%s" % (nonce_tok(r), hx(rbytes(r, n))) for n in (15, 16, 17, 1000))))
+        ctx.count("aes.select.buf-key%d" % klen)
+        # one stream cut into calls < 16 and >= 16 bytes (the cuts of the C02-d demonstration and more)
+        toks, pos, i = ["K" + hx(k), "I" + nonce_tok(r)], 0, r.randrange(len(CUTS))
+        while pos < 1000:
+            n = min(CUTS[i % len(CUTS)], 1000 - pos)
+            toks.append(stream_tok(r, n)); pos += n; i += 1
+        cases.append("ctr " + " ".join(toks))
+        ctx.count("aes.select.chunked-key%d" % klen)
+    for _ in range(ctx.n(6, 150)):
+        toks = [key_tok(r), r.choice(["I" + nonce_tok(r), "A N" + nonce_tok(r)])]
+        for _ in range(r.randrange(2, 8)):
+            k = r.randrange(8)
+            if k == 0:
+                toks += [key_tok(r), "N" + nonce_tok(r)]
+            elif k == 1:
+                toks.append("R" + nonce_tok(r))
+            elif k == 2:
+                toks.append("B%s:%s" % (nonce_tok(r), hx(rbytes(r, r.choice(SIZES + [100])))))
+            else:
+                toks.append(stream_tok(r, r.choice(SIZES + [48, 100, 700])))
+        cases.append("ctr " + " ".join(toks))
+        ctx.count("aes.select.script")
+    return cases
+
+
+def _sel_fields(line):
+    return dict(f.split("=", 1) for f in line.split()[1:] if "=" in f)
+
+
+def check_aes_select(ctx):
+    """The two modules (crypto_aes.c, crypto_aesctr.c) must select the same implementation whatever the
+    outcome of crypto_aes.c's first-use self-test; output must be FIPS-197 / SP 800-38A either way."""
+    sub = "aes.select"
+    mexe = _models(ctx, sub)
+    if not mexe:
+        return
+    exe, err = build_sel()
+    if not exe:
+        ctx.fail(sub, "build", "aesni-sel", "C driver (aesni, allocation refusal) does not build: %s" % err)
+        return
+    cpu = host_has_aes()
+    if not cpu:
+        ctx.notes.append("host CPU lacks AES-NI: the self-test of the AES-NI code is never run; failed-self-test selection NOT covered")
+    cases = gen_select(ctx)
+    # one process per (case, refused allocation): the selection is made once per process, and a crash is
+    # attributed to its case
+    jobs = []
+    for n in REFUSE:
+        for i, c in enumerate(cases):
+            jobs.append((c, n, "kq"[(i + n) % 2]))
+    env = dict(os.environ)
+    env.update({"ASAN_OPTIONS": "detect_leaks=0:abort_on_error=0:malloc_fill_byte=190:max_malloc_fill_size=4096"})
+    res = [None] * len(jobs)
+
+    def work(j):
+        c, n, trig = jobs[j]
+        try:
+            p = vlib.subprocess.run([exe, str(n), trig], input=(c + "\n").encode(), stdout=vlib.subprocess.PIPE,
+                                    stderr=vlib.subprocess.PIPE, env=env, timeout=120)
+            res[j] = (p.returncode, p.stdout.decode("utf-8", "replace").splitlines(), p.stderr.decode("utf-8", "replace"))
+        except vlib.subprocess.TimeoutExpired:
+            res[j] = (-99, [], "timeout")
+
+    from concurrent.futures import ThreadPoolExecutor
+    with ThreadPoolExecutor(max_workers=vlib.NCPU) as ex:
+        list(ex.map(work, range(len(jobs))))
+    # what the selection model (Crypto/AesSelect.v over the regenerated data) says for each outcome
+    sel_model = {}
+    for st in (True, False):
+        rc, lines, _ = vlib.run_lines(mexe, "sel\n", args=("sel-%d%d" % (cpu, st),))
+        sel_model[st] = lines[0] if lines else "<no-output rc=%d>" % rc
+    spec, _ = vlib.run_sharded(mexe, ["spec " + c for c in cases], args=("sw",))
+    models = {st: vlib.run_sharded(mexe, cases, args=("sel-%d%d" % (cpu, st),))[0] for st in (True, False)}
+    nrep = {"sel": 0, "crash": 0}
+    allc, seen = [], set()
+    for n in REFUSE:
+        # allocations 1 and 2 are the two crypto_aes_key_expand_aesni calls of functest(x86_aesni_oneshot)
+        # (one per self-test vector); without AES-NI on the CPU the self-test is not run at all
+        st = not (cpu and n in (1, 2))
+        idx = [j for j in range(len(jobs)) if jobs[j][1] == n]
+        impl = []
+        for j in idx:
+            c, _, trig = jobs[j]
+            rc, lines, err = res[j]
+            tag = "refuse-alloc=%s first-use=%s: %s" % (n or "none", trig, describe(c))
+            selline = lines[0] if lines and lines[0].startswith("sel ") else ""
+            f = _sel_fields(selline)
+            ctx.count("aes.select.refuse-%s.%s" % (n or "none", " ".join(selline.split()[1:6]).replace(" ", ",") or "no-sel-line"))
+            if selline:
+                vals = [f.get("key"), f.get("block"), f.get("stream16"), "0" if f.get("can_use") == "0" else "1"]
+                if len(set(vals)) != 1 and nrep["sel"] < 3:
+                    nrep["sel"] += 1
+                    ctx.fail(sub, "property", tag,
+                             "crypto_aes.c and crypto_aesctr.c selected different implementations: %s (key/block = what "
+                             "crypto_aes_key_expand built / crypto_aes_encrypt_block reads; stream16 = crypto_aesctr_stream hands a "
+                             "16-byte call to the AES-NI code, which reads the key object as struct crypto_aes_key_aesni)" % selline,
+                             property_fails=True)
+                elif " ".join(selline.split()[:6]) != sel_model[st] and nrep["sel"] < 3:
+                    nrep["sel"] += 1
+                    ctx.fail(sub, "diff", tag, "selection: impl '%s' model '%s'" % (selline, sel_model[st]),
+                             property_fails=False)
+                if n and cpu and int(f.get("refused", "0")) != 1 and nrep["sel"] < 3:
+                    nrep["sel"] += 1
+                    ctx.fail(sub, "tie", tag, "the harness did not get to refuse allocation %d: %s" % (n, selline))
+            out = lines[1] if len(lines) > 1 else "<no-output rc=%d>" % rc
+            bad = rc != 0 or "ERROR: AddressSanitizer" in err or "runtime error:" in err
+            if bad:
+                nrep["crash"] += 1
+                if nrep["crash"] <= 3:
+                    m = vlib.re.search(r"(ERROR: AddressSanitizer[^\n]*|[^\n]*runtime error:[^\n]*)", err)
+                    ctx.fail(sub, "sanitizer" if m else "crash", tag,
+                             "%s; %s" % (m.group(1) if m else "driver exit rc=%d: %s" % (rc, err.strip()[-300:]), selline or "no sel line"),
+                             property_fails=True)
+                out = "<crashed rc=%d>" % rc
+            impl.append(out)
+            seen.add((n, vlib.hashlib.md5(c.encode()).hexdigest(), vlib.hashlib.md5(out.encode()).hexdigest()))
+        tagged = ["[refuse-alloc=%s] %s" % (n or "none", c) for c in cases]
+        vlib.tri_compare(ctx, "%s.refuse-%s" % (sub, n or "none"), tagged, impl, models[st], spec, describe=describe, max_report=2)
+        allc += tagged
+    ctx.count("aes.select.crashes", nrep["crash"])
+    ctx.record(sub, allc, seen,
+               "AES-NI build with --wrap=malloc: allocation #n made inside library calls refused (n = none, 1, 2 = the two "
+               "key expansions of the first-use self-test in crypto_aes.c:hwaccel_init -> self-test fails -> OpenSSL key objects; "
+               "3 = the caller's own key expansion -> reported NULL, retried), first use through crypto_aes_key_expand or "
+               "crypto_aes_can_use_intrinsics; one process per (case, n).  White-box probe through the wrapped AES-NI entry points: "
+               "crypto_aes_key_expand builds AES-NI objects <-> crypto_aes_encrypt_block reads them so <-> crypto_aes_can_use_intrinsics() != 0 "
+               "<-> crypto_aesctr_stream hands a 16-byte call to crypto_aesctr_aesni_stream (disagreement = property failure), and the "
+               "probe line equals the extracted selection model (Crypto/AesSelect.v over the regenerated hwaccel_init data).  Then block "
+               "encryption 128/256, crypto_aesctr_buf of 15/16/17/1000 bytes, chunked streams with calls on both sides of the 16-byte "
+               "threshold, random init/init2/re-key scripts: output vs the selection-aware model (x_lib_stream) and vs FIPS-197 / ctr_spec; "
+               "crash or sanitizer report = property failure",
+               samples=[allc[1][:160], allc[-1][:160]] if allc else [])
+
+
+SUBCHECKS = {"C02": [check_aes_select, check_aes_block, check_aes_ctr],
+             "C03": [check_aes_select, check_aes_block, check_aes_ctr],
              "C20": [check_aes_wipe]}
